@@ -24,8 +24,8 @@ Proof.
   intros c Hwf f limit n. unfold now_query_ids, now_query_last_ids, now_query_all_ids, now_search_ids.
   rewrite C03_gen_leaf_unbounded.
   destruct sort_dedup_is_hash_order as [H1 H2]. pose proof (wf_coll_WF c Hwf) as Hc.
-  assert (Hm : (0 < max_search_limit)%nat) by (vm_compute; repeat constructor).
-  assert (Hf : (1 <= search_topk_factor)%nat) by (vm_compute; repeat constructor).
+  assert (Hm : (0 < max_search_limit)%nat) by (apply Nat.ltb_lt; vm_compute; reflexivity).
+  assert (Hf : (1 <= search_topk_factor)%nat) by (apply Nat.leb_le; vm_compute; reflexivity).
   assert (Hk : (max_search_limit <= search_topk_cap)%nat) by (apply Nat.leb_le; vm_compute; reflexivity).
   repeat split.
   - exact (page_first hs_run H1 H2 c Hc max_search_limit Hm f limit).
